@@ -1350,15 +1350,114 @@ def _cadence_standard(ck, repo, nf):
     ck.ob("R5-cadence", site, "every-interval-th-epoch", not bad_save, "checkpoint iff key registered and the advanced epoch counter is a multiple of the interval", "" if not bad_save else f"{bad_save[:2]}", loc(mi, fn))
 
 
+def _kept_readouts(ck, repo, nf):
+    """"Every recorded statistic is retrievable in recording order": get_stat must answer from the containers as they are when it is
+    called.  If it keeps a converted copy in another attribute of the logger (a cache), every method that adds a record - directly or
+    through a helper method of the class - must refresh that attribute (pop / del / clear / assign), otherwise a later get_stat returns
+    the arrays of before.  Evidence for a violation: a method reaches an append to the recorded containers while neither it nor the helper
+    that appends touches the kept attribute, and get_stat's reuse test does not look at the containers."""
+
+    def self_attr_base(b):
+        while isinstance(b, ast.Subscript):
+            b = b.value
+        return b.attr if isinstance(b, ast.Attribute) and isinstance(b.value, ast.Name) and b.value.id == "self" else None
+
+    def touches(fn, attrs):
+        for x in ast.walk(fn):
+            if isinstance(x, ast.Call) and isinstance(x.func, ast.Attribute) and x.func.attr in ("pop", "clear", "popitem", "update", "setdefault"):
+                if self_attr_base(x.func.value) in attrs:
+                    return True
+            tg = x.targets if isinstance(x, (ast.Assign, ast.Delete)) else [x.target] if isinstance(x, (ast.AugAssign, ast.AnnAssign)) else []
+            for t_ in tg:
+                if self_attr_base(t_) in attrs:
+                    return True
+        return False
+
+    def appends(fn):
+        for x in ast.walk(fn):
+            if isinstance(x, ast.Call) and isinstance(x.func, ast.Attribute) and x.func.attr in ("append", "extend", "insert") and self_attr_base(x.func.value) in ("stats", "stats_loc"):
+                return True
+            if isinstance(x, ast.AugAssign) and self_attr_base(x.target) in ("stats", "stats_loc"):
+                return True
+        return False
+
+    for cq in (LG + "MemoryLogger", LG + "StandardLogger"):
+        g = _mi(repo, cq, "get_stat")
+        # attributes of self that get_stat stores into (directly, through setdefault, or through a local alias of such an entry)
+        kept, alias = set(), {}
+        for st in ast.walk(g):
+            if isinstance(st, ast.Assign) and len(st.targets) == 1 and isinstance(st.targets[0], ast.Name):
+                v = st.value
+                while isinstance(v, ast.Call) and isinstance(v.func, ast.Attribute) and v.func.attr in ("setdefault", "get"):
+                    v = v.func.value
+                a_ = self_attr_base(v)
+                if a_ is not None and a_ not in ("stats", "stats_loc"):
+                    alias[st.targets[0].id] = a_
+        for st in ast.walk(g):
+            tg = st.targets if isinstance(st, ast.Assign) else [st.target] if isinstance(st, (ast.AugAssign, ast.AnnAssign)) else []
+            for t in tg:
+                if not isinstance(t, ast.Subscript):
+                    if isinstance(t, ast.Attribute) and isinstance(t.value, ast.Name) and t.value.id == "self":
+                        kept.add(t.attr)
+                    continue
+                a_ = self_attr_base(t)
+                if a_ is not None:
+                    kept.add(a_)
+                else:
+                    b = t
+                    while isinstance(b, ast.Subscript):
+                        b = b.value
+                    if isinstance(b, ast.Name) and b.id in alias:
+                        kept.add(alias[b.id])
+            if isinstance(st, ast.Call) and isinstance(st.func, ast.Attribute) and st.func.attr == "setdefault" and self_attr_base(st.func.value) is not None:
+                kept.add(self_attr_base(st.func.value))
+        kept -= {"stats", "stats_loc"}
+        site = f"{cq}.get_stat"
+        if not kept:
+            ck.ob("R2-record-get", site, "answers-from-the-records", True, "get_stat keeps nothing between calls", "", loc(g._module, g))
+            continue
+        # a reuse test that looks at the recorded containers (length / identity) re-validates the kept copy: not read here
+        for t in ast.walk(g):
+            if isinstance(t, (ast.If, ast.IfExp, ast.While)) and _mentions(t.test, tuple(kept)) and _mentions(t.test, ("stats", "stats_loc")):
+                raise AnalysisError(f"{site}: the kept read-out {sorted(kept)} is re-validated against the records (unrecognised form)")
+        own = {}
+        for c in repo.mro(cq):
+            for m_ in repo.cls(c).body:
+                if isinstance(m_, ast.FunctionDef) and m_.name not in own:
+                    own[m_.name] = m_
+        stale = []
+        for name, fn in sorted(own.items()):
+            if name in ("get_stat", "__init__"):
+                continue
+            callees = [own[c.func.attr] for c in ast.walk(fn) if isinstance(c, ast.Call) and isinstance(c.func, ast.Attribute) and isinstance(c.func.value, ast.Name)
+                       and c.func.value.id == "self" and c.func.attr in own and c.func.attr != name]
+            adds_here = appends(fn)
+            adds_below = [h for h in callees if appends(h)]
+            if not (adds_here or adds_below):
+                continue
+            refreshed = touches(fn, kept) or (not adds_here and all(touches(h, kept) for h in adds_below))
+            if not refreshed:
+                stale.append(name)
+        # a helper that only appends is judged through its callers
+        called_helpers = {c.func.attr for fn in own.values() for c in ast.walk(fn) if isinstance(c, ast.Call) and isinstance(c.func, ast.Attribute)
+                          and isinstance(c.func.value, ast.Name) and c.func.value.id == "self"}
+        inlined = {x.rsplit(".", 1)[1] for x in repo.transparent_helpers()}      # helpers whose every use was expanded into its callers
+        stale = [n for n in stale if not (n.startswith("_") and (n in called_helpers or n in inlined))]
+        ok = not stale
+        ck.ob("R2-record-get", site, "answers-from-the-records", ok, f"get_stat keeps converted read-outs in self.{sorted(kept)}",
+              "" if ok else f"{stale} add(s) a record without refreshing self.{sorted(kept)}: a get_stat after it returns the arrays of before (the new record is not retrievable)", loc(g._module, g))
+
+
 def run(ck, repo: Repo, tier: str):
     nf = NF(repo, inline_depth=1, inline_calls=False)
-    for group in (_fan_out, _record_get, _counters, _save_then_list, _save_model_waits, _cadence_orbax, _cadence_orbax_state, _cadence_threshold, _cadence_standard):
+    for group in (_fan_out, _record_get, _kept_readouts, _counters, _save_then_list, _save_model_waits, _cadence_orbax, _cadence_orbax_state, _cadence_threshold, _cadence_standard):
         ck.guard(group, ck, repo, nf)
     ck.guard(_instance_state, ck, repo)
 
 
 _L, _C = "rl_blox/logging/logger.py", "rl_blox/logging/checkpointer.py"
 MUTANTS = [
+    {"id": "c20-get-stat-keeps-arrays-never-refreshed", "file": 'rl_blox/logging/logger.py', "rule": "R2", "nth": 0, "find": '        x = np.asarray(list(map(lambda x: x[x_idx], self.stats_loc[key])))\n        y = np.asarray(self.stats[key])\n        return x, y\n', "replace": '        kept = self.__dict__.setdefault("_kept", {})\n        if (key, x_key) not in kept:\n            kept[(key, x_key)] = (np.asarray(list(map(lambda x: x[x_idx], self.stats_loc[key]))), np.asarray(self.stats[key]))\n        return kept[(key, x_key)]\n'},
     {"id": "c20-memory-shared-stats", "file": "rl_blox/logging/logger.py", "rule": "R2", "edits": [("class MemoryLogger(LoggerBase):\n", "class MemoryLogger(LoggerBase):\n    stats = {}\n    stats_loc = {}\n"), ("        self.n_steps = 0\n        self.stats_loc = {}\n        self.stats = {}\n", "        self.n_steps = 0\n")]},
     {"id": "c20-list-drops-step", "file": _L, "rule": "R1", "find": "                key, value, episode, step, t, verbose, format_str\n", "replace": "                key, value, episode, None, t, verbose, format_str\n"},
     {"id": "c20-list-swaps-episode-step", "file": _L, "rule": "R1", "find": "                key, value, episode, step, t, verbose, format_str\n", "replace": "                key, value, step, episode, t, verbose, format_str\n"},
@@ -1391,6 +1490,7 @@ MUTANTS = [
     {"id": "c20-standard-save-when-not-due", "file": _L, "rule": "R5", "find": "            and self.epoch[key] % self.checkpoint_frequencies[key] == 0\n", "replace": "            and self.epoch[key] % self.checkpoint_frequencies[key] != 0\n"},
 ]
 BENIGN = [
+    {"id": "c20-b-get-stat-keeps-arrays-refreshed-on-record", "file": 'rl_blox/logging/logger.py', "nth": 1, "edits": [('        x = np.asarray(list(map(lambda x: x[x_idx], self.stats_loc[key])))\n        y = np.asarray(self.stats[key])\n        return x, y\n', '        kept = self.__dict__.setdefault("_kept", {})\n        if (key, x_key) not in kept:\n            kept[(key, x_key)] = (np.asarray(list(map(lambda x: x[x_idx], self.stats_loc[key]))), np.asarray(self.stats[key]))\n        return kept[(key, x_key)]\n'), ('        if key not in self.stats:\n            self.stats_loc[key] = []\n            self.stats[key] = []\n        if episode is None:\n            episode = self._n_episodes\n', '        self.__dict__.pop("_kept", None)\n        if key not in self.stats:\n            self.stats_loc[key] = []\n            self.stats[key] = []\n        if episode is None:\n            episode = self._n_episodes\n')]},
     {"id": "c20-b-list-kwargs", "file": _L, "find": "            logger.record_epoch(key, value, episode, step, t)", "replace": "            logger.record_epoch(key, value, episode=episode, step=step, t=t)"},
     {"id": "c20-b-standard-order", "file": _L, "nth": 0, "find": "        self.stats_loc[key].append((episode, step, t))\n        self.stats[key].append(value)", "replace": "        self.stats[key].append(value)\n        self.stats_loc[key].append((episode, step, t))"},
     # forms the rules read by meaning (audit): none of these changes what is recorded, counted, forwarded or saved
